@@ -66,6 +66,9 @@ Readings (the weaker one where the statement leaves a choice):
   (gap = 0.001*x1 - c with x1 excluded) is installed at its search value while x1 stays at x1(0), so it jumps in
   the next period whatever the acceptance test does; the statement is not read as covering such systems and the
   schemes never exclude a variable that a non-excluded one depends on.
+* ParameterErrorTolerance (the solver's own tolerance) is part of the state: not set, finer or coarser (x10, x100)
+  than the steady-state tolerance; the acceptance tolerance is the steady-state one in every case.  With a coarser
+  step tolerance the classes with large drift come in two flavours (`loose`: within the coarser tolerance).
 * "otherwise the search raises a no-equilibrium or value error" is demanded of well-formed systems; a system
   that names an undefined variable (the repository's own test expects NameError) is replayed but not judged
   on this clause.
@@ -120,12 +123,16 @@ def drift_class(prev, last, tol):
     return 'large'
 
 
-def classify(prev, last, tol, nxt=None):
+def classify(prev, last, tol, nxt=None, tolc=None):
     """grid class of the final two values; nxt = the value one more period later (decides `stays` where the
     class has that bit: both values near zero, large drift)"""
     if not finite(prev, last):
-        return {'prev': 'pL', 'last': 'pL', 'drift': 'large', 'stays': True}   # outside the grid: large drift
-    c = {'prev': mag(prev), 'last': mag(last), 'drift': drift_class(prev, last, tol), 'stays': True}
+        return {'prev': 'pL', 'last': 'pL', 'drift': 'large', 'stays': True, 'loose': False}   # outside the grid
+    c = {'prev': mag(prev), 'last': mag(last), 'drift': drift_class(prev, last, tol), 'stays': True, 'loose': False}
+    if tolc is not None and c['drift'] == 'large':
+        # tolc: a step tolerance coarser than the steady-state tolerance; loose = the change is within THAT one
+        d = abs(Fraction(last) - Fraction(prev))
+        c['loose'] = bool(d <= Fraction(tolc) or d <= Fraction(tolc) * abs(Fraction(last)))
     if near_zero(c['prev']) and near_zero(c['last']) and c['drift'] == 'large' and nxt is not None:
         c['stays'] = bool(finite(nxt) and abs(Fraction(nxt)) < Fraction(Z))
     return c
@@ -175,7 +182,7 @@ def cand_values(m, tol, T):
     return [s * dy(b) for b in base]
 
 
-def cand_pairs(cls, tol, T):
+def cand_pairs(cls, tol, T, tolc=None):
     """concrete (prev*, last*) inside the class, away from its borders"""
     out = []
     seen = set()
@@ -194,7 +201,8 @@ def cand_pairs(cls, tol, T):
             if (prev, last) in seen or not finite(prev, last):
                 continue
             seen.add((prev, last))
-            if same3(classify(prev, last, tol), cls):
+            c = classify(prev, last, tol, None, tolc)
+            if same3(c, cls) and c['loose'] == cls.get('loose', False):
                 out.append((prev, last))
     return out
 
@@ -328,13 +336,13 @@ def add_schedule(rhs, sim_rhs, x0, p, T, tol, lag, rng):
     return rhs2, sim2, x0n, 'schedule_' + tv
 
 
-def realise(name, cls, T, tol, rng, allow_trend=False, max_time=5, tdep='none'):
+def realise(name, cls, T, tol, rng, allow_trend=False, max_time=5, tdep='none', tolc=None):
     """A recurrence for variable `name` whose final two values after T steps have class cls.
     tdep = 'settled': the equation also mentions the time axis, through a schedule that is over before the last
     periods; tdep = 'trend': a pure function of time."""
     if tdep == 'trend':
         return realise_trend(name, cls, T, tol, rng)
-    pairs = cand_pairs(cls, tol, T)
+    pairs = cand_pairs(cls, tol, T, tolc)
     rng.shuffle(pairs)
     for p, q in pairs[:8]:
         fams = families(name, p, q, T, allow_trend)
@@ -376,7 +384,7 @@ def realise(name, cls, T, tol, rng, allow_trend=False, max_time=5, tdep='none'):
                 sp, sq, sn = simulate(sim_rhs, x0, T, lag)
             except (OverflowError, ZeroDivisionError):
                 continue
-            if classify(sp, sq, tol, sn) != cls:
+            if classify(sp, sq, tol, sn, tolc) != cls:
                 continue
             if cls['drift'] != 'large' and not steady(sq, sn, tol):
                 continue        # border window of an unstable recurrence (see module docstring): not generated
@@ -445,6 +453,7 @@ def build_case(beh, seed, tier):
     names = [''.join(nm) for nm in beh['names']]
     kinds = list(beh.get('kinds') or ['solved'] * len(names))
     tdeps = list(beh.get('tdep') or ['none'] * len(names))
+    step_kind = beh.get('steptol', 'none')
     option = sorted(''.join(nm) for nm in beh['option'])       # ParameterInitialSteadyStateExcludedVariables
     max_time = rng.choice([3, 5, 10])
     if tier == 'quick':
@@ -452,7 +461,8 @@ def build_case(beh, seed, tier):
     else:
         T = rng.choice([rng.choice(HORIZONS_QUICK), rng.randint(5, 200), rng.randint(31, 200)])
     reduction = rng.random() < 0.7 or 'decorative' in kinds      # a decorative kind needs equation reduction
-    base = {'behaviour': beh, 'T': T, 'max_time': max_time, 'wf': bool(beh['wf']), 'want': beh['runres']}
+    base = {'behaviour': beh, 'T': T, 'max_time': max_time, 'wf': bool(beh['wf']), 'want': beh['runres'],
+            'steptol': None}
     if beh['runres'] != 'ok':
         tol = rng.choice(TOLS)
         parts = [{'endo': ['%s = 0.5*LAG_%s + 1.0' % (v, v), 'LAG_%s = %s(k-1)' % (v, v)], 'init': [], 'exo': []}
@@ -470,6 +480,10 @@ def build_case(beh, seed, tier):
     tols = list(TOLS)
     rng.shuffle(tols)
     for tol in tols:
+        # ParameterErrorTolerance: not set / finer / coarser than the steady-state tolerance
+        steptol = {'none': None, 'finer': tol / rng.choice([10.0, 100.0]),
+                   'coarser': tol * rng.choice([10.0, 100.0])}[step_kind]
+        tolc = steptol if step_kind == 'coarser' else None
         parts, gen, recipes, parts_of = [], {}, [], {}
         ok = True
         for i, v in enumerate(names):
@@ -479,7 +493,7 @@ def build_case(beh, seed, tier):
                 r = realise_decorative(v, beh['cls'][i], names[src], parts_of[src]['sim'], tol, T, rng)
             else:
                 r = realise(v, beh['cls'][i], T, tol, rng, allow_trend=is_ex and tdeps[i] == 'none',
-                            max_time=max_time, tdep=tdeps[i])
+                            max_time=max_time, tdep=tdeps[i], tolc=tolc)
             if r is None:
                 ok = False
                 break
@@ -490,7 +504,7 @@ def build_case(beh, seed, tier):
             if not is_ex and kinds[i] != 'decorative' and r['recipe'] != 'exo' and rng.random() < 0.25:
                 parts.append({'endo': ['d_%s = 1.0*%s' % (v, v)], 'init': [], 'exo': []})     # decorative copy
         if ok:
-            base.update(tdep=dict((v, tdeps[i]) for i, v in enumerate(names)))
+            base.update(tdep=dict((v, tdeps[i]) for i, v in enumerate(names)), steptol=steptol)
             base.update(tol=tol, text=assemble(parts, max_time), excluded=option, reduction=reduction, gen=gen,
                         recipes=recipes)
             return base
@@ -515,7 +529,7 @@ def canonical_cases(tier):
         for T, tol in grid:
             sp, sq, sn = simulate(rhs, x0, T, 'LAG_x1')
             cls = classify(sp, sq, tol, sn)
-            beh = {'n': 1, 'names': [['x', '1']], 'kinds': ['solved'], 'tdep': ['none'], 'option': [['t']], 'excluded': [], 'wf': True, 'runres': 'ok',
+            beh = {'n': 1, 'names': [['x', '1']], 'kinds': ['solved'], 'tdep': ['none'], 'steptol': 'none', 'option': [['t']], 'excluded': [], 'wf': True, 'runres': 'ok',
                    'cls': [cls], 'canonical': True}
             text = 'x1 = %s\nLAG_x1 = x1(k-1)\nx1(0) = %s\nexogenous\nMaxTime = 5\n' % (rhs, num(x0))
             out.append({'behaviour': beh, 'T': T, 'max_time': 5, 'wf': True, 'want': 'ok', 'tol': tol, 'text': text,
@@ -555,6 +569,11 @@ def execute(case):
         s.ParameterInitialSteadyStateMaxTime = T
         s.ParameterInitialSteadyStateErrorToler = tol
         s.ParameterInitialSteadyStateExcludedVariables = list(case['excluded'])
+        steptol = case.get('steptol')
+        if steptol is not None:
+            s.ParameterErrorTolerance = steptol              # the solver's own (per-period) tolerance
+        tolc = steptol if (steptol is not None and steptol > tol) else None
+        step_kind = 'none' if steptol is None else ('coarser' if steptol > tol else 'finer')
         s.ExtractVariableList()
         s.SetInitialConditions()
         names = list(s.TimeSeries.keys())
@@ -591,8 +610,9 @@ def execute(case):
                     obs['frozen'] = all(list(c.TimeSeries[v]) == [k0[v]] * (T + 1) for v in exo_user)
                     obs['hor_ok'] = bool(c.Parser.MaxTime == T)
                     obs['axis_ok'] = bool(list(c.TimeSeries['k']) == [-float(x) for x in range(T, -1, -1)])
+                    obs['tol_ok'] = bool(float(c.Parser.Err_Tolerance) == tol)
                 except Exception:
-                    obs['frozen'], obs['hor_ok'], obs['axis_ok'] = False, False, False
+                    obs['frozen'], obs['hor_ok'], obs['axis_ok'], obs['tol_ok'] = False, False, False, False
             return real_step(step, *a, **kw)
         c.SolveStep = wrapped_step
         return c
@@ -657,14 +677,16 @@ def execute(case):
     events = [{'ev': 'Begin', 'n': len(names), 'names': [list(v) for v in names],
                'kinds': [kind_of.get(v, 'solved') for v in names],
                'tdep': [case.get('tdep', {}).get(v, 'none') for v in names],
+               'steptol': step_kind, 'steptoltext': '' if steptol is None else num(steptol),
                'option': [list(v) for v in case['excluded']], 'listed': idx_excl, 'wf': case['wf'],
                'T': T, 'toltext': num(tol)}]
     cs = obs.get('copy_same', final_same)
     events.append(dict({'ev': 'Copy', 'deep': bool(obs.get('deep', False))}, **cs))
     fs = obs.get('freeze_same', final_same)
     events.append(dict({'ev': 'Freeze', 'frozen': bool(obs.get('frozen', False)),
-                        'hor_ok': bool(obs.get('hor_ok', False)), 'axis_ok': bool(obs.get('axis_ok', False))}, **fs))
-    classes = [classify(finals[v][0], finals[v][1], tol, nxt.get(v)) for v in names] if res == 'ok' else []
+                        'hor_ok': bool(obs.get('hor_ok', False)), 'axis_ok': bool(obs.get('axis_ok', False)),
+                        'tol_ok': bool(obs.get('tol_ok', False))}, **fs))
+    classes = [classify(finals[v][0], finals[v][1], tol, nxt.get(v), tolc) for v in names] if res == 'ok' else []
     events.append(dict({'ev': 'Run', 'res': res, 'want': case['want'], 'cls': classes}, **final_same))
     if res == 'ok':
         for i, v in enumerate(names):
@@ -701,6 +723,10 @@ def signature(clause, case, events):
         begin = events[0]
         if any(e['ev'] == 'Freeze' and not e.get('axis_ok', True) for e in events):
             return 'time-axis:search-not-run-along-k=-T..0:time-dependent-series-accepted-off-its-k=0-rest-point'
+        if begin.get('steptol') == 'coarser':
+            run0 = [e for e in events if e['ev'] == 'Run'][0]
+            if any(e['ev'] == 'Judge' and not e['excl'] and run0['cls'][e['idx'] - 1].get('loose') for e in events):
+                return 'tolerance:acceptance-test-used-the-coarser-step-tolerance-instead-of-the-steady-state-one'
         opt = [''.join(o) for o in begin['option']] + ['k']
         for e in events:
             if e['ev'] == 'Judge' and not e['excl'] and not e['inst']:
@@ -786,7 +812,8 @@ def judge(rep, items, stats=None):
         out = evs[-1]['outcome']
         stats.setdefault('outcomes', {})
         stats['outcomes'][out] = stats['outcomes'].get(out, 0) + 1
-    verdicts, st, tr = core.validate_traces('MC_Steady_Trace', 'MC_Steady_Trace.cfg', traces, tag='c15', chunk=700)
+    verdicts, st, tr = core.validate_traces('MC_Steady_Trace', 'MC_Steady_Trace.cfg', traces, tag='c15', chunk=700,
+                                              timeout=14400)
     rep.traces += len(traces)
     rep.extra['trace_validation_states'] = rep.extra.get('trace_validation_states', 0) + st
     for i, c in enumerate(cases):
@@ -835,13 +862,14 @@ def run(rep):
     stats = {}
     unreal = 0
     if rep.tier != 'quick':
-        res = core.tlc('MC_Steady', 'MC_Steady_thorough3.cfg', workers=4, tag='c15', want_printed=False)
+        res = core.tlc('MC_Steady', 'MC_Steady_thorough3.cfg', workers=4, tag='c15', want_printed=False,
+                       timeout=14400)        # 5e6 states: 2 min on a quiet machine, hours on a starved one
         if res.violated:
             raise core.MachineryError('spec invariant %s violated in MC_Steady_thorough3.cfg' % res.violated)
         rep.add_tlc(res, 'exhaustive MC_Steady_thorough3.cfg (3 variables, full grid, not emitted)')
     first = True
     for cfg, workers in INSTANCES[rep.tier]:
-        res = core.tlc('MC_Steady', cfg, workers=workers, tag='c15')
+        res = core.tlc('MC_Steady', cfg, workers=workers, tag='c15', timeout=7200)
         if res.violated:
             raise core.MachineryError('spec invariant %s violated in %s' % (res.violated, cfg))
         rep.add_tlc(res, 'exhaustive ' + cfg)
